@@ -18,6 +18,7 @@ double __CPROVER_uninterpreted_mulx(double, double); double __CPROVER_uninterpre
 static double bx_mulx(double a, double b) { return __CPROVER_uninterpreted_mulx(a, b); }
 static double bx_divx(double a, double b) { return __CPROVER_uninterpreted_divx(a, b); }
 static double bx_scale(double u, double x) { return bx_mulx(u, x); }
+static _Bool sk_same(double a, double b) { return a == b || (a != a && b != b); }
 '''
 CHECKS = ['--no-standard-checks', '--bounds-check', '--pointer-check', '--conversion-check', '--div-by-zero-check', '--signed-overflow-check']
 
@@ -31,7 +32,7 @@ def parse(path):
             continue
         m = re.match(r'^function (\w+)$', ln)
         if m:
-            cur = {'name': m.group(1), 'mode': 'label-machine', 'requires': [], 'arrays': {}, 'fnptr': [], 'invariant': [], 'at': {}}
+            cur = {'name': m.group(1), 'mode': 'label-machine', 'requires': [], 'arrays': {}, 'fnptr': [], 'invariant': [], 'at': {}, 'c16': {}}
             out[cur['name']] = cur
             continue
         m = re.match(r'^mode:\s*(.*)$', ln)
@@ -53,6 +54,10 @@ def parse(path):
         m = re.match(r'^at (\w+):\s*(.*)$', ln)
         if m:
             cur['at'].setdefault(m.group(1), []).append(m.group(2).strip())
+            continue
+        m = re.match(r'^c16 at (\w+):\s*(.*)$', ln)
+        if m:
+            cur['c16'].setdefault(m.group(1), []).append(m.group(2).strip())
             continue
         raise ValueError('safety.contract: cannot parse: ' + ln)
     return out
@@ -118,7 +123,14 @@ def build(db, spec):
     cuts = [n for k_, n in segments.order_positions(body) if k_ == 'label' and re.match(r'^bx_loop\d+_head$', n)]
     cuts += [l for l in segments.backward_targets(body) if l not in cuts]
     decls, seg, ids = segments.segment_function(f, T, o, cuts, segname='sk_seg')
-    for c_ in spec['at']:
+    # const static tables (write-once, constant initialisers: C07 frame scan) hold their REAL initialisers in every segment
+    tabinit = []
+    for (nm, t, init, const) in f.statics:
+        m = re.match(r'^const double\s*\[(\d+)\]$', t.strip())
+        if spec['c16'] and m and const and init is not None and init.k == 'init':
+            tabinit.append('  { static const double sk_t_%s[%s] = %s; for (int sk_i = 0; sk_i < %s; sk_i++) x_%s[sk_i] = sk_t_%s[sk_i]; }'
+                           % (nm, m.group(1), bx2c.P(init, bx2c.Opts()), m.group(1), nm, nm))
+    for c_ in list(spec['at']) + list(spec['c16']):
         if c_ not in ids:
             raise bx2c.Unsupported('%s: the contract names cut point %s, the rendering has %s' % (name, c_, cuts))
     for pc in [0] + [ids[c_] for c_ in cuts]:
@@ -135,7 +147,8 @@ def build(db, spec):
                     H.append('  x_%s = nondet_%s();' % (nm, 'double' if tt == 'double' else 'int'))
                 elif re.match(r'^double\s*\[\d+\]$', tt):
                     H.append('  __CPROVER_havoc_object(x_%s);' % nm)
-            for x in spec['invariant'] + spec['at'].get(cname, []):
+            H += tabinit
+            for x in spec['invariant'] + spec['at'].get(cname, []) + spec['c16'].get(cname, []):
                 H.append('  __CPROVER_assume(%s);' % x)
         H.append('  int nx = sk_seg(%d);' % pc)
         H.append('  __CPROVER_assert(nx == %d || (nx >= 1 && nx <= %d), "C08 label machine %s: successor is a cut point");' % (segments.BX_EXIT, len(cuts), tag))
@@ -144,6 +157,9 @@ def build(db, spec):
         for c_, xs in sorted(spec['at'].items()):
             for j, x in enumerate(xs):
                 H.append('  __CPROVER_assert(nx != %d || (%s), "C08 %s: loop invariant #%d of %s holds on arrival");' % (ids[c_], x, tag, j + 1, c_))
+        for c_, xs in sorted(spec['c16'].items()):
+            for j, x in enumerate(xs):
+                H.append('  __CPROVER_assert(nx != %d || (%s), "C16 %s: pairing clause #%d of %s holds on arrival (weight w_i travels with the abscissa built from node t_i)");' % (ids[c_], x, tag, j + 1, c_))
         H.append('  __CPROVER_assert(0, "canary %s: harness end is reachable (must be refuted)");' % tag)
         H.append('}')
         meta = {'function': name, 'what': 'safek', 'mode': 'label-machine', 'cut': cname, 'cuts': cuts, 'requires': spec['requires']}
